@@ -72,11 +72,11 @@ def parseSigs (s : String) : List Sig :=
 
 /-- script instruction as printed by the harness (clock waits still refer to clock ids) -/
 inductive RawIns
-  | wf (d : Rat) | wc (clock : Nat) (ph : Phase) | wch (sigs : List Sig) | ws | rd (sigs : List Sig) | wr (pin : Nat) (v : Val) | fk (s : Nat)
+  | wf (d : Rat) | wc (clock : Nat) (ph : Phase) | wch (sigs : List Sig) | ws | rd (sigs : List Sig) | wr (pin : Nat) (v : Val) | fk (s : Nat) | jn (k : Nat)
   deriving Repr, Inhabited
 
 def RawIns.isWait : RawIns → Bool
-  | .wf _ | .wc .. | .wch _ | .ws => true
+  | .wf _ | .wc .. | .wch _ | .ws | .jn _ => true
   | _ => false
 
 def parseIns (toks : List String) : Option RawIns :=
@@ -88,6 +88,7 @@ def parseIns (toks : List String) : Option RawIns :=
   | ["rd", s] => some (.rd (parseSigs s))
   | ["wr", k, v] => some (.wr k.toNat! (parseBits v))
   | ["fk", s] => some (.fk s.toNat!)
+  | ["jn", k] => some (.jn k.toNat!)
   | _ => none
 
 def splitOnTok (toks : List String) (sep : String) : List (List String) :=
@@ -145,6 +146,7 @@ structure PView where
   last : Option (Rat × Phase × Nat × List Val) := none    -- previous observation
   lastSeq : Nat := 0            -- global sequence number of the previous observation
   inCommit : Bool := false      -- the process was last resumed by `commitState` (from a `WaitStable`)
+  afterJoin : Bool := false     -- the process was last resumed by the end of a joined process
   deriving Inhabited
 
 structure Case where
@@ -173,6 +175,7 @@ structure Case where
   instClk : List (Nat × Bool) := []
   instRst : List (Nat × Bool) := []
   resumes : List (Rat × Phase × Nat × Nat × Nat) := []   -- (t, phase, tick, suspendSeq, pid) of the resumes of the current instant, newest first
+  joinResumes : List (Rat × Phase × Nat × Nat × Nat × Nat) := []   -- (t, phase, tick, joined fork index, suspendSeq, pid) of joiners resumed in the current instant
   afterReads : List (Nat × List Sig × List Val) := []    -- AFTER-phase post-clock-wait reads to be compared with the commit
 
 structure St where
@@ -217,6 +220,7 @@ def toInstr (cs : ClockTree) : RawIns → Instr
   | .rd s => .read s
   | .wr k v => .write k v
   | .fk s => .fork s
+  | .jn k => .join k
 
 def startCase (s : St) : St := Id.run do
   let c := s.cur
@@ -235,7 +239,7 @@ def startCase (s : St) : St := Id.run do
       h := bump h (match i with
         | .wf d => if d == 0 then "ins:waitFor0" else "ins:waitFor"
         | .wc cl ph => (if cs.relevant.contains cl then "ins:waitClk:" else "ins:waitClkFree:") ++ (match ph with | .before => "B" | .during => "D" | .after => "A")
-        | .wch _ => "ins:waitChange" | .ws => "ins:waitStable" | .rd _ => "ins:read" | .wr .. => "ins:write" | .fk _ => "ins:fork")
+        | .wch _ => "ins:waitChange" | .ws => "ins:waitStable" | .rd _ => "ins:read" | .wr .. => "ins:write" | .fk _ => "ins:fork" | .jn _ => "ins:join")
   h := bump h s!"nstart:{c.nstart}"
   h := bump h s!"clockpins:{a.clockPins.length}"
   return { s with cur := { c with started := true, prog := prog, alloc := a, sim := sim, pinsCur := pins0 }, hist := h }
@@ -277,7 +281,7 @@ def sigOf (outs pins : List Val) : Sig → Val
 
 /-- a new instant begins: forget per-instant state -/
 def newInstant (c : Case) (t : Rat) : Case :=
-  if t == c.curTime then c else { c with curTime := t, edgeSnap := none, resumes := [], afterReads := [] }
+  if t == c.curTime then c else { c with curTime := t, edgeSnap := none, resumes := [], joinResumes := [], afterReads := [] }
 
 /-- the hardware part of the instant starts (first DURING/AFTER observation or first clock/reset event): fix the pin values the edge sees -/
 def fixEdge (c : Case) : Case := if c.edgeSnap.isSome then c else { c with edgeSnap := some c.pinsCur }
@@ -310,16 +314,27 @@ def specProc (s : St) (pid : Nat) (t : Rat) (ph : Phase) (tick : Nat) (vals : Li
     if !(t == t0 && ph == ph0 && tick == tick0) then
       s := s.propfail s!"kind=time-passes-without-wait pid={pid} before=({showRat t0},{ph0.toNat},{tick0}) after=({showRat t},{ph.toNat},{tick})"
   | some w, some (t0, ph0, tick0, vals0) =>
-    -- (c) same-instant resume order = suspension order
+    -- (c) same-instant resume order = suspension order. A joiner becomes runnable *by* the end of the joined process, whenever in
+    -- the instant that happens: it is ordered only against the other joiners of the same process (order in which they began to wait)
     let key := (t, ph, tick)
-    match s.cur.resumes.head? with
-    | some (t', ph', tick', sseq', pid') =>
-      if (t', ph', tick') == key then
-        s := s.count "check:resume-order"
+    match w with
+    | .jn k =>
+      match s.cur.joinResumes.find? (fun (t', ph', tick', k', _, _) => (t', ph', tick') == key && k' == k) with
+      | some (_, _, _, _, sseq', pid') =>
+        s := s.count "check:join-resume-order"
         if sseq' > v.lastSeq then
-          s := s.propfail s!"kind=resume-order time={showRat t} phase={ph.toNat} tick={tick} pid={pid'} (suspended later) resumed before pid={pid} (suspended earlier)"
-    | none => pure ()
-    s := { s with cur := { s.cur with resumes := (t, ph, tick, v.lastSeq, pid) :: s.cur.resumes } }
+          s := s.propfail s!"kind=join-resume-order time={showRat t} phase={ph.toNat} tick={tick} joined-fork={k} pid={pid'} (began to wait later) resumed before pid={pid} (began to wait earlier)"
+      | none => pure ()
+      s := { s with cur := { s.cur with joinResumes := (t, ph, tick, k, v.lastSeq, pid) :: s.cur.joinResumes } }
+    | _ =>
+      match s.cur.resumes.head? with
+      | some (t', ph', tick', sseq', pid') =>
+        if (t', ph', tick') == key then
+          s := s.count "check:resume-order"
+          if sseq' > v.lastSeq then
+            s := s.propfail s!"kind=resume-order time={showRat t} phase={ph.toNat} tick={tick} pid={pid'} (suspended later) resumed before pid={pid} (suspended earlier)"
+      | none => pure ()
+      s := { s with cur := { s.cur with resumes := (t, ph, tick, v.lastSeq, pid) :: s.cur.resumes } }
     match w with
     | .wf d =>
       s := s.count (if d == 0 then "check:waitFor0" else "check:waitFor")
@@ -355,12 +370,17 @@ def specProc (s : St) (pid : Nat) (t : Rat) (ph : Phase) (tick : Nat) (vals : Li
     | .ws =>
       s := s.count "check:waitStable"
       -- a process that is itself running inside `commitState` waits for the next commit (possibly of the same instant)
-      if !((if v.inCommit then !(t < t0) else t == t0) && ph == .after) then
+      -- (after a join the process continues in the context in which the joined process ended, possibly a commit: either is accepted)
+      if !((if v.afterJoin then !(t < t0) else if v.inCommit then !(t < t0) else t == t0) && ph == .after) then
         s := s.propfail s!"kind=waitStable pid={pid} suspended={showRat t0} resumed={showRat t} in-commit={v.inCommit}"
+    | .jn _ =>
+      s := s.count "check:join"
+      if t < t0 then s := s.propfail s!"kind=join-resumed-in-the-past pid={pid} suspended={showRat t0} resumed={showRat t}"
     | _ => pure ()
   | _, none => pure ()
   let inCommit := match wait with | some .ws => true | some _ => false | none => v.inCommit
-  let v' : PView := { v with pc := pc', last := some (t, ph, tick, vals), lastSeq := seq, inCommit := inCommit }
+  let afterJoin := match wait with | some (.jn _) => true | some _ => false | none => v.afterJoin
+  let v' : PView := { v with pc := pc', last := some (t, ph, tick, vals), lastSeq := seq, inCommit := inCommit, afterJoin := afterJoin }
   return { s with cur := { s.cur with views := setKV s.cur.views pid v', seq := seq } }
 
 /-- register outputs at the commit: C04's `specInstant` with the pin values fixed at the end of the BEFORE phase
@@ -468,6 +488,7 @@ def handleLine (s : St) (line : String) : St :=
       | ["advance", d] => some (.advance (parseRat d))
       | _ => none
     { s with cur := { s.cur with pendingOp := op }, hist := bump s.hist ("op:" ++ rest.headD "?") }
+  | "X" :: "fiber-join-case" :: how :: _ => s.count s!"check:fiber-join-case:{how}"
   | "X" :: "fiber-same" :: _ => s.count "check:fiber-log-identical"
   | "X" :: "fiber-differs" :: rest => (s.count "check:fiber-log-identical").propfail s!"kind=fiber-differs {" ".intercalate rest}"
   | "X" :: "repeat-differs" :: rest => s.propfail s!"kind=repeat-differs {" ".intercalate rest}"
